@@ -1,6 +1,8 @@
 import Driver.C10
+import Driver.ST
 
 def main (args : List String) : IO UInt32 := do
   match args with
   | "C10" :: rest => DriverC10.main rest; return 0
+  | "ST" :: rest => DriverST.main rest; return 0
   | _ => IO.eprintln "usage: gvdriver <Cxx> [mode] < history"; return 2
